@@ -36,7 +36,7 @@ func scenarios(tier string) []scenario {
 		for _, n := range []int{2, 3} {
 			for _, c := range []int{1, 2} {
 				for l := 0; l <= maxL; l++ {
-					if tier != "thorough" && (l > 2 || (n == 3 && l > 1)) {
+					if tier != "thorough" && ((n == 3 && l > 2) || (fn != "Split" && c == 2 && l > 2) || (fn == "Fork" && n == 3 && l > 1)) {
 						continue // the larger scenarios need the thorough tier's caps to be covered completely
 					}
 					s := scenario{Fn: fn, L: l, N: n, Capacity: c}
